@@ -42,13 +42,17 @@ CrVals == {<<0, 0, 0, 0>>, <<0, 0, 0, 16>>, <<65535, 32768, 0, 32>>}
 CrSyms == CrNames \X CrVals
 CrPairs == {<<"a", "b">>, <<"ab", "a">>, <<"b", "b">>, <<"a", "ab">>}
 CrFam ==
-  LET reds == SeqsUpTo(CrPairs, 2)
-      syms == SeqsUpTo(CrSyms, IF Scope = 1 THEN 2 ELSE 3)
-      fills == {<<0, 0, 0, 0>>, <<61166, 61166, 61166, 61166>>}
-  IN UNION { UNION { { [syms |-> sy, reds |-> r, symtab |-> TRUE, sec |-> sc, fill |-> f] :
-                         sc \in {-1, 16 * Len(r) - 16, 16 * Len(r), 16 * Len(r) + 8} \cap (-1..1000),
-                         f \in IF Len(sy) <= 1 THEN fills ELSE {<<61166, 61166, 61166, 61166>>} } : r \in reds } : sy \in syms }
-     \cup { [syms |-> <<>>, reds |-> r, symtab |-> FALSE, sec |-> 16 * Len(r), fill |-> <<0, 0, 0, 0>>] : r \in reds }
+  LET fills == {<<0, 0, 0, 0>>, <<61166, 61166, 61166, 61166>>}
+      secs(r) == {-1, 16 * Len(r) - 16, 16 * Len(r), 16 * Len(r) + 8} \cap (-1..1000)
+      \* symbol tables of up to 2 entries with every redirect list; in scope 2 also 3 entries with the short lists
+      small == UNION { UNION { { [syms |-> sy, reds |-> r, symtab |-> TRUE, sec |-> sc, fill |-> f] :
+                                   sc \in secs(r), f \in IF Len(sy) <= 1 THEN fills ELSE {<<61166, 61166, 61166, 61166>>} }
+                               : r \in SeqsUpTo(IF Scope = 1 THEN {<<"a", "b">>, <<"b", "b">>} ELSE CrPairs, 2) } : sy \in SeqsUpTo(CrSyms, 2) }
+      big == IF Scope = 1 THEN {}
+             ELSE UNION { UNION { { [syms |-> sy, reds |-> r, symtab |-> TRUE, sec |-> sc, fill |-> <<0, 0, 0, 0>>] : sc \in secs(r) }
+                                  : r \in SeqsUpTo(CrPairs, 1) } : sy \in [1..3 -> CrSyms] }
+  IN small \cup big
+     \cup { [syms |-> <<>>, reds |-> r, symtab |-> FALSE, sec |-> 16 * Len(r), fill |-> <<0, 0, 0, 0>>] : r \in SeqsUpTo(CrPairs, 2) }
 \* the design: scan the whole symbol table for every redirect; abort after all redirects have been looked at
 CrScan(in, name) ==
   LET hit(j) == in.syms[j][1] = name \/ (Bug = "CrPrefixMatch" /\ name = "a" /\ in.syms[j][1] = "ab")     \* "a" is a prefix of "ab"
@@ -87,7 +91,10 @@ LsLinesFam ==
     <<"A", " ", "=", " ", "1">>, Cat(<<nA, P!Equ, <<"1">>, P!Equ, <<"2">>>>, 1), <<"A", " ", "e", "q", "u">>,
     Cat3(nB, P!Equ, <<"7", " ", ";", "c">>) }
 LsScripts == { <<>>, nA, nAB, Cat(<<nA, Sp, nAB, <<"\n">>, nB>>, 1), <<"x", "A", "y">>, Cat3(nB, nA, nAB), <<"A", "A">> }
-LsFam == { [have |-> "both", consts |-> c, script |-> sc] : c \in SeqsUpTo(LsLinesFam, IF Scope = 1 THEN 2 ELSE 3), sc \in LsScripts }
+LsLinesQuick == { Cat3(nA, P!Equ, <<"1">>), Cat3(nAB, P!Equ, <<"2">>), Cat3(nB, P!Equ, nA), Cat(<<Sp, nA, Sp, P!Equ, Sp, <<"3">>, <<" ", "\t">>>>, 1),
+                  <<";", " ", "A", " ", "e", "q", "u", " ", "9">>, <<"A", " ", "=", " ", "1">>, Cat(<<nA, P!Equ, <<"1">>, P!Equ, <<"2">>>>, 1),
+                  Cat3(nB, P!Equ, <<"7", " ", ";", "c">>) }
+LsFam == { [have |-> "both", consts |-> c, script |-> sc] : c \in IF Scope = 1 THEN SeqsUpTo(LsLinesQuick, 2) ELSE SeqsUpTo(LsLinesFam, 3), sc \in LsScripts }
          \cup { [have |-> h, consts |-> <<Cat3(nA, P!Equ, <<"1">>)>>, script |-> nA] : h \in {"noconst", "noscript"} }
 \* the design: read the lines into a map, then substitute name after name in the order the map yields them
 LsParse(ln) == LET t == T!TrimSpace(ln) IN
@@ -188,13 +195,15 @@ VerCore == { <<"2">>, <<"2", ".", "2", "6">>, <<"2", ".", "2", "5">>, <<"2", "."
              <<"1", ".", "5", ".", "6">>, <<"1", ".", "4", ".", "8">>, <<"1", "0">>, <<"U", ")">>, <<>> }
 VerSuffix == { <<>>, <<"-", "r", "c", "1">>, <<"+", "b">>, <<"-", "9", "3", ".", "e", "l", "8">>, <<".", "2", "0", "2", "0", "-", "1">>, <<".", "p", "l", "0", "2">>,
                <<"-">>, <<"-", "0", "1">>, <<"-", "a", "+">>, <<"+", "a", ".", "-">>, <<".", "1", ".", "2">> }
-VerStrings == { Cat2(c, x) : c \in VerCore, x \in VerSuffix }
+VerCoreQuick == { <<"2">>, <<"2", ".", "2", "6">>, <<"2", ".", "2", "5">>, <<"2", ".", "9">>, <<"2", ".", "0", "2", "6">>, <<"2", ".", "2", "6", ".", "0">>,
+                  <<"2", ".", "2", "5", ".", "9", "9">>, <<"1", ".", "5", ".", "0">>, <<"1", ".", "4", ".", "9", "9">>, <<"1", ".", "1", "0">>, <<"U", ")">>, <<>> }
+VerStrings == { Cat2(c, x) : c \in IF Scope = 1 THEN VerCoreQuick ELSE VerCore, x \in VerSuffix }
 ObjHeads == { <<"o", " ", "(", "U", " ", "B", ")", " ">>, <<"o", " ">>, <<>> }
 ObjTails == { <<>>, <<"\n">>, <<"\n", "C", " ", "2", "0", "\n">>, <<" ", "\n">>, <<"\r", "\n">>, <<"\t">> }
 XorHeads == { <<"x", "o", "r", "r", "i", "s", "o", " ">>, <<"G", "N", "U", " ", "x", "o", "r", "r", "i", "s", "o", " ">>, <<"x", "o", "r", "r", "i", "s", "o", ":", " ">>, <<>> }
 XorTails == { <<" ", ":", " ", "R", "\n">>, <<"\n">>, <<>>, <<"\n", "I", "S", "O", " ", "9">> }
-VeFam == { [tool |-> "objcopy", banner |-> Cat3(h, v, t)] : h \in ObjHeads, v \in VerStrings, t \in IF Scope = 1 THEN {<<>>, <<"\n", "C", " ", "2", "0", "\n">>, <<" ", "\n">>} ELSE ObjTails }
-         \cup { [tool |-> "xorriso", banner |-> Cat3(h, v, t)] : h \in XorHeads, v \in VerStrings, t \in IF Scope = 1 THEN {<<" ", ":", " ", "R", "\n">>, <<"\n", "I", "S", "O", " ", "9">>} ELSE XorTails }
+VeFam == { [tool |-> "objcopy", banner |-> Cat3(h, v, t)] : h \in IF Scope = 1 THEN {<<"o", " ", "(", "U", " ", "B", ")", " ">>, <<>>} ELSE ObjHeads, v \in VerStrings, t \in IF Scope = 1 THEN {<<>>, <<"\n", "C", " ", "2", "0", "\n">>, <<"\r", "\n">>} ELSE ObjTails }
+         \cup { [tool |-> "xorriso", banner |-> Cat3(h, v, t)] : h \in IF Scope = 1 THEN {<<"x", "o", "r", "r", "i", "s", "o", " ">>, <<"G", "N", "U", " ", "x", "o", "r", "r", "i", "s", "o", " ">>} ELSE XorHeads, v \in VerStrings, t \in IF Scope = 1 THEN {<<" ", ":", " ", "R", "\n">>, <<"\n", "I", "S", "O", " ", "9">>} ELSE XorTails }
 VeDToken(tool, b) ==
   IF tool = "objcopy"
   THEN LET nl == T!IndexOf(b, "\n")
@@ -246,7 +255,7 @@ MmSpecial == { <<>>, <<"g">>, <<"g", "o">>, <<"v", "1", ".", "2">>, <<"1", ".", 
                <<"g", "o", "1", ".", "1", "6", "r", "c", "0", "1">>, <<"g", "o", "1", ".", "2", ".", "3", "r", "c", "1">>, <<"g", "o", "1", "b", "e", "t", "a", "1">>,
                <<"g", "o", "1", ".", "1", "6", "b", "e", "t", "a", "1", "x">>, <<"g", "o", "1", ".", "1", "5", ".", "3">>, <<"g", "o", "1", "1", ".", "2", "2", ".", "3", "3">>,
                <<"g", "o", "1", ".", "1", "5", ".", "0", "-", "p", "r", "e", ".", "1", "+", "m", ".", "2">>, <<"g", "o", "1", ".", "1", "5", " ">>, <<"d", "e", "v", "e", "l">> }
-MmFam == { [v |-> Cat2(<<"g", "o">>, w)] : w \in SeqsUpTo(MmAlpha, IF Scope = 1 THEN 4 ELSE 5) } \cup { [v |-> w] : w \in MmSpecial }
+MmFam == { [v |-> Cat2(<<"g", "o">>, w)] : w \in SeqsUpTo(MmAlpha, IF Scope = 1 THEN 3 ELSE 5) } \cup { [v |-> w] : w \in MmSpecial }
 MmD(v) ==
   IF ~T!HasPrefix(v, <<"g", "o">>) THEN <<FALSE, "">>
   ELSE LET r == T!From(v, 3)
@@ -276,8 +285,9 @@ GvDesign(in) ==
 --------------------------------------------------------------------------
 (* OE *)
 OeNames == {"A", "AB", ""}
-OeEntries == (OeNames \X (IF Scope = 1 THEN {"1", "x=y"} ELSE {"1", "2", "x=y"}) \X {TRUE}) \cup {<<"A", "", FALSE>>}
-OeFam == { [env |-> e, ovr |-> o] : e \in SeqsUpTo(OeEntries, IF Scope = 1 THEN 2 ELSE 3), o \in SeqsUpTo(OeEntries, 2) }
+OeEntries == (OeNames \X {"1", "x=y"} \X {TRUE}) \cup {<<"A", "", FALSE>>}
+OeFam == { [env |-> e, ovr |-> o] : e \in SeqsUpTo(OeEntries, IF Scope = 1 THEN 2 ELSE 3), o \in SeqsUpTo(OeEntries, IF Scope = 1 THEN 1 ELSE 2) }
+         \cup { [env |-> e, ovr |-> o] : e \in {<<>>, << <<"A", "1", TRUE>> >>}, o \in SeqsUpTo(OeEntries, 2) }
 OeSame(a, b) == IF Bug = "OePrefixMatch" THEN a = b \/ (b = "A" /\ a = "AB") \/ b = "" ELSE a = b     \* does entry name a match override name b
 RECURSIVE OeDScan(_, _, _)
 OeDScan(lst, o, i) ==
@@ -298,7 +308,8 @@ OeDesign(in) == LET r == OeDFold(in.env, in.ovr, 1) IN
 
 --------------------------------------------------------------------------
 (* BW *)
-BwVers == { <<"g", "o", "1", ".", "1", "5">>, <<"g", "o", "1", ".", "8">>, <<"g", "o", "1", "1", ".", "5">>, <<"1", ".", "1", "5">>, <<"g", "o", "1">>, <<"g", "o", "1", ".", "1", "5", ".", "3">> }
+BwVers == { <<"g", "o", "1", ".", "1", "5">>, <<"g", "o", "1", ".", "8">>, <<"g", "o", "1", "1", ".", "5">>, <<"1", ".", "1", "5">>, <<"g", "o", "1">>, <<"g", "o", "1", ".", "1", "5", ".", "3">>,
+            <<"g", "o", "g", "o", "1", ".", "2">> }
 BwEnts == { <<"GO_G_M", W(48)>>, <<"GO_G_M", W(0)>>, <<"GO_STACK_LO", <<65535, 65535, 65535, 65535>>>> }
 BwFam == { [pkg |-> p, ver |-> v, entries |-> e] : p \in {"main", "offsets"}, v \in BwVers, e \in SeqsUpTo(BwEnts, 2) }
 BwDesign(in) ==
@@ -313,7 +324,7 @@ BwDesign(in) ==
 --------------------------------------------------------------------------
 (* DO *)
 DoNames == { <<"g", "_", "m">>, <<"m", "_", "g", "0">>, <<"s", "t", "a", "c", "k", "_", "l", "o">>, <<"g", "o", "b", "u", "f", "_", "s", "p">>, <<"G", "_", "m">>, <<"g">> }
-DoLine(f, n, v) == [form |-> f, name |-> n, val |-> v]
+DoLine(f, n, v) == [form |-> f, name |-> n, val |-> v, hex |-> v[4] % 2 = 0 /\ v[4] > 9]      \* hex: how the encoder writes the number (not read by the monitor)
 DoLineSets == { <<>>, <<DoLine("def", <<"g", "_", "m">>, W(48))>>,
                 <<DoLine("def", <<"m", "_", "g", "0">>, W(0)), DoLine("bare", <<"s", "t", "a", "c", "k", "_", "l", "o">>, <<65535, 65535, 65535, 65535>>)>>,
                 <<DoLine("def", <<"g", "o", "b", "u", "f", "_", "s", "p">>, W(1)), DoLine("def", <<"G", "_", "m">>, W(2)), DoLine("def", <<"g">>, W(3))>>,
@@ -328,7 +339,8 @@ DoDists == { <<>>, << <<"linux", "amd64">> >>, << <<"darwin", "amd64">>, <<"linu
 DoLineSets1 == <<DoLine("def", <<"g", "_", "m">>, W(48))>>
 DoFileSeqs == { <<>> } \cup { <<f>> : f \in DoFiles }
               \cup UNION { { <<f, g>> : g \in {x \in DoFiles : x.key # f.key /\ Len(x.lines) \in 1..2} } : f \in {x \in DoFiles : x.asm /\ x.lines = DoLineSets1} }
-DoFam == { [goarch |-> "amd64", dist |-> d, distrc |-> 0, buildrc |-> 0, work |-> TRUE, files |-> fs] : d \in DoDists, fs \in DoFileSeqs }
+DoFam == { [goarch |-> "amd64", dist |-> d, distrc |-> 0, buildrc |-> 0, work |-> TRUE, files |-> fs] : d \in DoDists, fs \in IF Scope = 1 THEN {<<>>} ELSE DoFileSeqs }
+         \cup { [goarch |-> "amd64", dist |-> << <<"darwin", "amd64">>, <<"linux", "arm">>, <<"linux", "amd64">> >>, distrc |-> 0, buildrc |-> 0, work |-> TRUE, files |-> fs] : fs \in DoFileSeqs }
          \cup { [goarch |-> "amd64", dist |-> << <<"linux", "amd64">> >>, distrc |-> x[1], buildrc |-> x[2], work |-> x[3],
                  files |-> << [key |-> <<50>>, asm |-> TRUE, lines |-> DoLineSets1] >>] : x \in {<<1, 0, TRUE>>, <<0, 1, TRUE>>, <<0, 0, FALSE>>, <<2, 2, FALSE>>} }
 DoWanted(name) == IF Bug = "DoAnyPrefix" THEN name # <<>> /\ name[1] \in {"g", "m", "s"} ELSE P!DoRelevant(name)
